@@ -144,7 +144,20 @@ theorem interpolate_fixed_error_bound (p1 p2 c e1 e2 M E : Int)
   obtain ⟨d, e⟩ := interpDist_lt_den p1 e1 p2 e2 c
   exact ⟨a, b, c', d, e⟩
 
-/-- **`apply_deltas_eq_spec` — one tuple, one contour (+ the four phantom points).**
+/- FULL STATEMENT (what the property asks): for every simple glyph (any number of contours) and every
+location, skrifa's adjusted point = point + to_i32(T) with |T − 65536 · Σ_t S_t · I_t(k)| ≤
+Σ_t (k_t/2 · |I_t(k)| + (den_t − 1)/2), where S_t is the exact tent scalar, I_t(k) the
+specification's inferred delta of tuple t at point k.  PROVED: every ingredient for all inputs —
+the scalar bound (`tuple_scalar_error_bound`), exact scaling (`scaled_delta_exact`), the buffer after
+`accumulate_sparse_deltas` (`accumulate_sparse_pointwise`), the per-axis interpolation bound
+(`interpolate_fixed_error_bound`), per-tuple accumulation (`simple_sparse_tuple_adds`) and the final
+rounding (`final_rounding`) — and their composition into the bound against the specification for a
+glyph with ONE contour plus phantom points (below).  MISSING: the same composition for contours
+that do not start at point 0 (the loops of `interpolate_deltas` are modelled for any contour list
+and tied to skrifa by correspondence on multi-contour glyphs, but `reader_loops_pick_spec_references`
+and hence this theorem are proved for a contour at points 0 ..= n-1), and the summation over several
+tuples as one closed formula (each tuple's contribution is added by wrapping 16.16 addition). -/
+/-- **`apply_deltas_eq_spec_partial` — one tuple, one contour (+ the four phantom points).**
 `points` = the `n` contour points then the phantom points (coordinates within `±M`); the tuple lists
 explicit deltas `ds` (zero where `has` is false, magnitudes within `Δ`) and is applied with the
 16.16 scalar `0 < s ≤ 65536`; `131072 M + 4·Δ·65536 + 65536 < 2³¹`.  The working buffer after
@@ -159,7 +172,7 @@ where `num / den = inferSpec points ds has k` is the SPECIFICATION's inferred de
 with one explicit point and for points clamped to a reference; `den` = the coordinate distance of
 the two reference points for interpolated points (error ≤ (den−1)/2 units of 2⁻¹⁶).  The phantom
 points keep their working values (their delta is explicit or zero). -/
-theorem apply_deltas_eq_spec (n : Nat) (hn : 0 < n) (points ds : List Iup.Pt) (has : List Bool) (s : Int)
+theorem apply_deltas_eq_spec_partial (n : Nat) (hn : 0 < n) (points ds : List Iup.Pt) (has : List Bool) (s : Int)
     (hpl : points.length = n + 4) (hhl : has.length = n + 4) (hdl : ds.length = n + 4)
     (M Δ : Int) (hM : 0 ≤ M ∧ M ≤ 16383) (hΔ : 0 ≤ Δ) (hs : 0 < s ∧ s ≤ 65536)
     (hfit : 131072 * M + 4 * (Δ * 65536) + 65536 ≤ 2147483647)
@@ -258,7 +271,7 @@ theorem final_rounding (T R : Int) (hT : -2147483648 ≤ T ∧ T < 2147450880) :
 
 /-- **`composite_glyph`, one sparse tuple**: every component / phantom point the tuple lists gets
 `(x · s, y · s)` added in 16.16 — the exact integer products (no inference, no rounding: `den = 1`
-in the terms of `apply_deltas_eq_spec`); unlisted entries are untouched.  The scaler then adds
+in the terms of `apply_deltas_eq_spec_partial`); unlisted entries are untouched.  The scaler then adds
 `Fixed::to_i32` of the accumulated value to the component's offset and to the phantom points
 (`final_rounding`). -/
 theorem composite_deltas_exact (t : RawTuple) (sp : Option (List Nat)) (s : Int)
